@@ -154,6 +154,97 @@ def run(ctx):
     # shared with C02: literal operands must re-lex as the same kind of literal
     from qv.props.c02 import real_literal_rule
     real_literal_rule(db, res, [w for w in writers if hasattr(w, "impl_self_path")])
+    # R5 (K8) positions printed with format_complex: its output can start with `-` and can be a two-part sum `a+bi`.
+    #    Outside of Expression (whose own writer/parser pair is decided under C03) the parser of that position must accept a
+    #    sign, and must accept a sum (or the writer must not produce one).
+    fc = [f for f in db.fns if f.path == "quil_rs::expression::format_complex"]
+    piv = [f for f in db.fns if f.path == "quil_rs::parser::expression::parse_immediate_value"]
+    if len(fc) == 1 and len(piv) == 1:
+        users = [w for w in writers if any(c and callee_path(c) == fc[0].path for g in [w] + db.closures_of(w) for bb, t, c in g.calls())]
+        res.count("format_complex_writers", len(users), floor=2)
+        # does parse_immediate_value look at operator tokens at all (sign / sum)?
+        OPER = "quil_rs::parser::lexer::Operator"
+        mentions_operator = False
+        for g in [piv[0]] + db.closures_of(piv[0]):
+            for sp_, pl in __import__("qv.rules.k2_coverage", fromlist=["places_in"]).places_in(g):
+                for pr in pl["pr"]:
+                    if isinstance(pr, dict) and pr.get("dc") == "Operator":
+                        mentions_operator = True
+        for w in users:
+            tname = w.impl_self_path()
+            if tname == "quil_rs::expression::Expression":
+                continue
+            # the parser of this position: a parser function that refers to a constructor of this type and, directly or through
+            # parser helpers, to parse_immediate_value (e.g. `map(parse_immediate_value, UnresolvedCallArgument::Immediate)`)
+            short = tname.rsplit("::", 1)[-1]
+
+            def refs(f):
+                out = set()
+                for g in [f] + db.closures_of(f):
+                    for bb, t, c in g.calls():
+                        if c:
+                            out.add(callee_path(c))
+                        for a_ in t["args"]:
+                            for n in nodes(fn_expr_operand(g, a_)):
+                                if n[0] == "fnconst":
+                                    out.add(n[1])
+                return out
+
+            def mentions_op(f):
+                for g in [f] + db.closures_of(f):
+                    for sp_, pl in __import__("qv.rules.k2_coverage", fromlist=["places_in"]).places_in(g):
+                        for pr in pl["pr"]:
+                            if isinstance(pr, dict) and pr.get("dc") == "Operator":
+                                return True
+                    if any(c and c.get("name") in ("signed_real", "signed_integer", "invalid_sign") for bb, t, c in g.calls()):
+                        return True
+                    # a match on an Option<Operator> / Operator value
+                    for b_ in g.blocks:
+                        for s_ in b_["s"]:
+                            if s_["k"] == "assign" and s_["rv"]["k"] == "discr":
+                                prs = [x for x in s_["rv"]["p"]["pr"] if isinstance(x, dict) and "t" in x]
+                                ti = prs[-1]["t"] if prs else g.locals[s_["rv"]["p"]["l"]]["t"]
+                                if db.ty_s(ti).endswith("lexer::Operator"):
+                                    return True
+                return False
+
+            parser_fns = {f.path: f for f in db.fns if f.path.startswith("quil_rs::parser::") and f.kind in ("Fn", "AssocFn")}
+            makers, chain = [], []
+            for f in parser_fns.values():
+                r = refs(f)
+                if not any(("::%s::" % short) in c_ or c_.endswith("::" + short) for c_ in r):
+                    continue
+                # helpers referenced by f that reach parse_immediate_value
+                seen, work, hit = set(), [x for x in r if x in parser_fns], []
+                while work:
+                    x = work.pop()
+                    if x in seen:
+                        continue
+                    seen.add(x)
+                    if x == piv[0].path:
+                        hit.append(x)
+                        continue
+                    work += [y for y in refs(parser_fns[x]) if y in parser_fns and y != f.path]
+                if hit:
+                    makers.append(f)
+                    # the helpers on the way (those that themselves reach piv)
+                    for x in seen:
+                        if x != piv[0].path and x in parser_fns and (piv[0].path in refs(parser_fns[x])):
+                            chain.append(parser_fns[x])
+            uses_raw_immediate = bool(makers)
+            mentions_operator = mentions_op(piv[0])
+            signed = mentions_operator or any(mentions_op(f) for f in makers + chain)
+            sums = mentions_operator or any(any(y.endswith("::parse_expression") or y.endswith("::parse_infix") for y in refs(f)) for f in chain)
+            for clause, okv, what, wit in (
+                ("sign", (not uses_raw_immediate) or signed, "a value whose text starts with `-`", "Call with Immediate(-1.5) prints `CALL f -1.5`, which does not parse"),
+                ("sum", (not uses_raw_immediate) or sums, "a value with both a real and an imaginary part (`1+2.0i`)", "Call with Immediate(1+2i) prints `CALL f 1+2.0i`, which does not parse"),
+            ):
+                key = "K8|complex-literal-position|%s|%s" % (tname.rsplit("::", 1)[-1], clause)
+                res.site(key, True, {"writer": tname, "parsed_by": [f.path.rsplit("::", 1)[-1] for f in makers], "verdict": "ok" if okv else "VIOLATION"})
+                if not okv:
+                    res.find(key, w.loc(), "%s is printed with format_complex, which can produce %s, but its position is parsed with parse_immediate_value (an unsigned single-part literal)" % (tname.replace("quil_rs::", ""), what), wit)
+    else:
+        res.missing_anchor("format_complex / parse_immediate_value")
     # R4
     for name, const in (("to_quil", 0), ("to_quil_or_debug", 1)):
         fs = [f for f in db.fns if f.path == "quil_rs::quil::Quil::" + name]
